@@ -356,6 +356,13 @@ func CheckChangesScope(opts migrate.PlanOptions, changes []schema.Change) error 
 				names[t.Schema.Name] = struct{}{}
 			}
 		}
+		// A reference to a table of another schema loses its
+		// qualifier when the plan is scoped to one schema.
+		for _, fk := range t.ForeignKeys {
+			if r := fk.RefTable; r != nil && r.Schema != nil && r.Schema.Name != "" {
+				names[r.Schema.Name] = struct{}{}
+			}
+		}
 	}
 	if len(names) > 1 {
 		ks := make([]string, 0, len(names))
